@@ -43,11 +43,11 @@ PROPS = {
         ],
     },
     "C01": {
-        "units": ["U3", "U4", "U2"],
+        "units": ["U3", "U4", "U2", "U5"],
         "kani": ["U2b"],
         "level": "proof",
-        "witness": [(r"listen", "session")],
-        "sweep": ["session"],
+        "witness": [(r"verify_token|create_ciphers|apply_encryption", "enc_response"), (r"listen", "session")],
+        "sweep": ["session", "enc_response"],
         "explanation": "Connection::listen is extracted whole and verified against the reference automaton of units/U3/spec.rs: Login Success is accepted "
                        "only when the RSA-decrypted verify token equals the token of this connection's Encryption Request and the identity is the one "
                        "returned by the authentication oracle (asked with the decrypted shared secret and the server public key) or the one inside an "
